@@ -207,7 +207,17 @@ func cmdCheck(args []string) int {
 	}
 	groups := map[string]*group{}
 	var gnames []string
+	coverSat := map[string]bool{}
+	coverAll := map[string]bool{}
 	for i, ob := range mine {
+		if ob.Kind == "cover" {
+			coverAll[ob.Fn] = true
+			if ob.Result == "sat" || ob.Result == "unknown" || ob.Result == "timeout" {
+				// unknown: quantified context, not refuted -- accepted as "not shown vacuous"
+				coverSat[ob.Fn] = true
+			}
+			continue
+		}
 		g := groups[ob.Name]
 		if g == nil {
 			g = &group{name: ob.Name}
@@ -229,6 +239,16 @@ func cmdCheck(args []string) int {
 	for _, r := range reports {
 		if r.Undecided != "" {
 			undecided = append(undecided, r.Key+": "+r.Undecided)
+		}
+	}
+	var cfns []string
+	for f := range coverAll {
+		cfns = append(cfns, f)
+	}
+	sort.Strings(cfns)
+	for _, f := range cfns {
+		if !coverSat[f] {
+			undecided = append(undecided, f+": vacuous contract (no return is reachable under the precondition)")
 		}
 	}
 	replayDir := filepath.Join(*verif, "replays", *prop)
@@ -375,6 +395,8 @@ func cmdCheck(args []string) int {
 			"samples":                  samples,
 			"contract_files":           db.Files,
 			"timeout_s":                timeout,
+			"cover_checks":             len(coverAll),
+			"cover_reachable":          len(coverSat),
 		},
 		"assumptions": assumptions,
 		"wall_s":      time.Since(t0).Seconds(),
@@ -395,7 +417,13 @@ func cmdCheck(args []string) int {
 			if len(g.bad) > 0 {
 				st = g.bad[0].Result
 			}
-			fmt.Printf("  %-8s %s (%d)\n", st, n, len(g.obs))
+			mx, sv := 0.0, ""
+			for _, ob := range g.obs {
+				if ob.TimeS > mx {
+					mx, sv = ob.TimeS, ob.Solver
+				}
+			}
+			fmt.Printf("  %-8s %s (%d) %.2fs %s\n", st, n, len(g.obs), mx, sv)
 		}
 		for _, g := range gaps {
 			fmt.Println("  gap:", g)
